@@ -182,3 +182,10 @@ def C11_newerxy_unanchored(req, imp, model=None):
         return False
     pat = re.compile(r"-newer[aBcm][aBcmt]")
     return any(pat.search(w) and not re.fullmatch(r"-newer[aBcm][aBcmt]", w) for w in ws)
+
+
+def C02_H_root_link_depth(req, imp):
+    """same configuration as C03/H-root-link-depth (the hypothesis `¬ HRootLink` of C02_refines_post):
+    with -mindepth the directory that walkdir mis-defers is reported with the wrong depth and is then
+    filtered out, so an in-range entry is not evaluated at all"""
+    return C03_H_root_link_depth(req, imp)
